@@ -79,6 +79,9 @@ def source_digest(relpath, qualname):
 # ---------------------------------------------------------------------------
 # AST transformation
 
+_MUTATORS = {"append", "extend", "insert", "pop", "remove", "sort", "reverse", "clear", "shuffle"}
+
+
 def _assigned_names(nodes, attrs=None):
     names, stores = [], []
     if attrs is None:
@@ -96,6 +99,21 @@ def _assigned_names(nodes, attrs=None):
                     b = b.value
                 if isinstance(b, ast.Name) and b.id not in stores:
                     stores.append(b.id)
+            self.generic_visit(n)
+
+        def visit_Call(self, n):
+            f = n.func
+            if isinstance(f, ast.Attribute) and f.attr in _MUTATORS:
+                tgt = None
+                if isinstance(f.value, ast.Name) and f.attr != "shuffle":
+                    tgt = f.value.id
+                elif f.attr == "shuffle" and n.args and isinstance(n.args[0], ast.Name):
+                    tgt = n.args[0].id
+                if tgt is not None:
+                    if tgt not in stores:
+                        stores.append(tgt)
+                    if tgt not in names:
+                        names.append(tgt)
             self.generic_visit(n)
 
         def visit_Attribute(self, n):
@@ -507,6 +525,9 @@ class LoopRT:
     # state handed to invariants
     def _state(self, loc, phase="assume"):
         st = dict(loc)
+        for m in self.modified:
+            if isinstance(st.get(m), list):     # concrete python list at loop entry: same view as SymList
+                st[m] = SymList.from_list(st[m])
         st["_phase"] = phase
         st["_k"] = self.k
         st["_N"] = self.N
@@ -558,6 +579,7 @@ class LoopRT:
                 v._fn = fresh._fn
             elif v is not None and s not in self.modified:
                 raise Unsupported("loop stores into %s of type %s" % (s, type(v)))
+            # python lists mutated by method calls are rebound to fresh symbolic lists (see _fresh_like)
         # attributes assigned in the body (obj.attr = ...), plus those the contract declares
         # as modified through calls (spec.extra_attrs)
         extra = list(getattr(self.spec, "extra_attrs", ()))
@@ -606,6 +628,8 @@ class LoopRT:
             return EArr.fresh("hv_" + name, shp, v._dt)
         if v is None:
             return None
+        if isinstance(v, (list, SymList)):
+            return SymList.fresh("hv_" + name, getattr(v, "_es", None))
         if isinstance(v, dict):
             return Token(e.fresh_name("hv_" + name))
         hook = self.owner.havoc_hooks.get(type(v))
@@ -629,6 +653,65 @@ class LoopRT:
         self.k = wrap(_t(self.k) + 1)
         self._prove_all("preserve", self._state(loc, "preserve"))
         raise PathEnd()
+
+
+class SymList:
+    """a python list of integers (or reals) of symbolic length: length term + item closure; append mutates in place"""
+
+    def __init__(self, n, at, esort=None):
+        self._n = n
+        self._at = at
+        self._es = esort if esort is not None else z3.IntSort()
+
+    @classmethod
+    def fresh(cls, name, esort=None):
+        e = cur()
+        n = z3.Int(e.fresh_name(name + "_len"))
+        e.assume(n >= 0)
+        f = z3.Function(e.fresh_name(name), z3.IntSort(), esort if esort is not None else z3.IntSort())
+        o = cls(SymInt(n), lambda k: f(k), esort)
+        o._fn = f
+        return o
+
+    @classmethod
+    def from_list(cls, lst):
+        vals = [_t(v) for v in lst]
+        es = vals[0].sort() if vals else z3.IntSort()
+
+        def at(k):
+            r = vals[-1] if vals else z3.IntVal(0)
+            for i in range(len(vals) - 2, -1, -1):
+                r = z3.If(k == i, vals[i], r)
+            return r
+        return cls(len(vals), at, es)
+
+    def vlen(self):
+        return self._n
+
+    @property
+    def _shape(self):
+        return (self._n,)
+
+    def at(self, k):
+        return self._at(_t(k))
+
+    def append(self, v):
+        old, n, tv = self._at, _t(self._n), _t(v)
+        self._at = lambda k: z3.If(k == n, tv, old(k))
+        self._n = wrap(z3.simplify(n + 1))
+
+    def __getitem__(self, i):
+        if isinstance(i, int) and i < 0:
+            return wrap(self._at(_t(self._n) + i))
+        return wrap(self._at(_t(i)))
+
+    def __len__(self):
+        if isinstance(self._n, int):
+            return self._n
+        raise Unsupported("len() of a symbolic list in an unpatched namespace")
+
+    def __iter__(self):
+        raise Unsupported("python iteration over a symbolic list")
 
 
 class Token(dict):
